@@ -236,7 +236,9 @@ def run(ctx):
     for args, want in ((('LEFT', 12345, 2), 'T:49.50'), (('LEN', 12345), 'I:5'), (('LEN', -7), 'I:2'),
                        (('RIGHT', 12345, 2), 'T:52.53'), (('MID', 12345, 2, 2), 'T:50.51'),
                        (('EXACT', 12, '12'), 'B:1'), (('FIND', 3, 12345), 'I:3'),
-                       (('CONCAT', 1, 2), 'T:49.50'), (('UPPER', 12), 'T:49.50')):
+                       (('CONCAT', 1, 2), 'T:49.50'), (('UPPER', 12), 'T:49.50'), (('LEN', 120), 'I:3'),
+                       (('RIGHT', 1200, 2), 'T:48.48'), (('EXACT', 100, '100'), 'B:1'), (('CONCAT', 120, 0), 'T:49.50.48.48'),
+                       (('LEN', 0), 'I:1'), (('LEFT', -10, 3), 'T:45.49.48')):
         got = call_real(xl.FUNCTIONS[args[0]], *args[1:])
         res.evaluations += 1
         res.count('text-param')
